@@ -116,13 +116,16 @@ inductive Many (imm : Anchor) (F : VT → Binding → Prop) (G : List VT → Bin
   | takeMore {c cs b1 b2} : F c b1 → Many imm F G cs b2 → Many imm F G (c :: cs) (b1 ++ b2)
   | skip {c cs b} : blocked imm c = false → Many imm F G cs b → Many imm F G (c :: cs) b
 
-def Seq (q : Quant) (imm : Anchor) (F : VT → Binding → Prop) (G : List VT → Binding → Prop)
+/-- Sequencing of one item with quantifier `q`.  `G0` continues with the remaining items when
+the item matched zero nodes (then the anchor of the next item is waived — "there is no node on
+that side, so the anchor imposes no constraint"), `G1` after at least one node was taken. -/
+def Seq (q : Quant) (imm : Anchor) (F : VT → Binding → Prop) (G0 G1 : List VT → Binding → Prop)
     (sibs : List VT) (b : Binding) : Prop :=
   match q with
-  | .one => One imm F G sibs b
-  | .opt => G sibs b ∨ One imm F G sibs b
-  | .star => G sibs b ∨ Many imm F G sibs b
-  | .plus => Many imm F G sibs b
+  | .one => One imm F G1 sibs b
+  | .opt => G0 sibs b ∨ One imm F G1 sibs b
+  | .star => G0 sibs b ∨ Many imm F G1 sibs b
+  | .plus => Many imm F G1 sibs b
 
 def seqOne (imm : Anchor) (f : VT → List Binding) (g : List VT → List Binding) : List VT → List Binding
   | [] => []
@@ -133,13 +136,15 @@ def seqMany (imm : Anchor) (f : VT → List Binding) (g : List VT → List Bindi
   | c :: cs => cross (f c) (g cs) ++ cross (f c) (seqMany imm f g cs) ++
       (if blocked imm c then [] else seqMany imm f g cs)
 
-def seq (q : Quant) (imm : Anchor) (f : VT → List Binding) (g : List VT → List Binding)
+def seq (q : Quant) (imm : Anchor) (f : VT → List Binding) (g0 g1 : List VT → List Binding)
     (sibs : List VT) : List Binding :=
   match q with
-  | .one => seqOne imm f g sibs
-  | .opt => g sibs ++ seqOne imm f g sibs
-  | .star => g sibs ++ seqMany imm f g sibs
-  | .plus => seqMany imm f g sibs
+  | .one => seqOne imm f g1 sibs
+  | .opt => g0 sibs ++ seqOne imm f g1 sibs
+  | .star => g0 sibs ++ seqMany imm f g1 sibs
+  | .plus => seqMany imm f g1 sibs
+
+def waived (w : Bool) (a : Anchor) : Anchor := if w then .none else a
 
 /-! ## Semantics -/
 
@@ -150,7 +155,7 @@ def EndOk (last : Bool) (sibs : List VT) (b : Binding) : Prop :=
 mutual
   def SatPat : Pat → VT → Binding → Prop
     | .node t neg kids last, n, b =>
-      testNode t n.info = true ∧ negOk neg n = true ∧ SatItems kids last n.kids b
+      testNode t n.info = true ∧ negOk neg n = true ∧ SatItems kids last false n.kids b
     | .alt alts, n, b => SatAlts alts n b
   def SatAlts : List Item → VT → Binding → Prop
     | [], _, _ => False
@@ -158,9 +163,10 @@ mutual
   def SatItem : Item → VT → Binding → Prop
     | .mk _ f p _ caps, n, b =>
       fieldOk f n.info = true ∧ ∃ b', SatPat p n b' ∧ b = caps.map (fun c => (c, n.info.id)) ++ b'
-  def SatItems : List Item → Bool → List VT → Binding → Prop
-    | [], last, sibs, b => EndOk last sibs b
-    | it :: rest, last, sibs, b => Seq it.quant it.imm (SatItem it) (SatItems rest last) sibs b
+  def SatItems : List Item → Bool → Bool → List VT → Binding → Prop
+    | [], last, _, sibs, b => EndOk last sibs b
+    | it :: rest, last, w, sibs, b =>
+      Seq it.quant (waived w it.imm) (SatItem it) (SatItems rest last true) (SatItems rest last false) sibs b
 end
 
 /-! ## Enumeration -/
@@ -171,7 +177,7 @@ def endOk (last : Bool) (sibs : List VT) : List Binding :=
 mutual
   def matchPat : Pat → VT → List Binding
     | .node t neg kids last, n =>
-      if testNode t n.info && negOk neg n then matchItems kids last n.kids else []
+      if testNode t n.info && negOk neg n then matchItems kids last false n.kids else []
     | .alt alts, n => matchAlts alts n
   def matchAlts : List Item → VT → List Binding
     | [], _ => []
@@ -179,9 +185,10 @@ mutual
   def matchItem : Item → VT → List Binding
     | .mk _ f p _ caps, n =>
       if fieldOk f n.info then (matchPat p n).map fun b' => caps.map (fun c => (c, n.info.id)) ++ b' else []
-  def matchItems : List Item → Bool → List VT → List Binding
-    | [], last, sibs => endOk last sibs
-    | it :: rest, last, sibs => seq it.quant it.imm (matchItem it) (matchItems rest last) sibs
+  def matchItems : List Item → Bool → Bool → List VT → List Binding
+    | [], last, _, sibs => endOk last sibs
+    | it :: rest, last, w, sibs =>
+      seq it.quant (waived w it.imm) (matchItem it) (matchItems rest last true) (matchItems rest last false) sibs
 end
 
 mutual
